@@ -33,6 +33,11 @@ VARIANTS = {
     "vtk": (".vtk", {}, False),
     "vtk-ascii": (".vtk", {"binary": False}, False),
     "vtu": (".vtu", {}, False),
+    # not variants here: gmsh ASCII files written by meshio 5.3.5 cannot be
+    # read back by it under NumPy 2.x (np.fromfile(sep=" ") now raises), and
+    # its ASCII vtu writer prints 11 significant digits -- both are meshio's,
+    # with or without scikit-fem, so judging them would not judge C17
+    "vtu-raw": (".vtu", {"compression": None}, False),
     "json": (".json", None, True),
     "npz": (".npz", None, False),
 }
@@ -128,7 +133,8 @@ def gen_tags(rng):
         tags.append({"kind": kind, "name": n,
                      "frac": rng.choice([0.0, 0.1, 0.3, 0.6, 1.0]),
                      "seed": rng.randrange(1 << 30),
-                     "where": rng.choice(["boundary", "interior", "any"])})
+                     "where": rng.choice(["boundary", "interior", "any"]),
+                     "shuffle": rng.random() < 0.35})
     return tags
 
 
@@ -179,6 +185,8 @@ def generate(rng, tier):
                 fault = {"kind": "disk-full",
                          "frac": round(rng.choice([0.0, rng.random(),
                                                    rng.random(), 0.98]), 4)}
+                if rng.random() < 0.2:
+                    fault = {"kind": "open-fails", "frac": 0.0}
             ops.append({"op": "save", "mesh": rng.choice(slots), "path": pid,
                         "variant": v, "with_data": rng.random() < 0.5,
                         "fault": fault})
@@ -215,8 +223,10 @@ def build_mesh(o):
         if tg["kind"] == "s":
             n = m.nelements
             k = min(n, int(round(tg["frac"] * n)))
-            subs[tg["name"]] = np.array(sorted(r.sample(range(n), k)),
-                                        dtype=np.int32)
+            ix = sorted(r.sample(range(n), k))
+            if tg.get("shuffle"):
+                r.shuffle(ix)
+            subs[tg["name"]] = np.array(ix, dtype=np.int32)
         else:
             f2t = m.f2t
             if tg["where"] == "boundary":
@@ -226,7 +236,10 @@ def build_mesh(o):
             else:
                 cand = np.arange(f2t.shape[1])
             k = min(len(cand), int(round(tg["frac"] * len(cand))))
-            idx = np.array(sorted(r.sample(cand.tolist(), k)), dtype=np.int32)
+            ix = sorted(r.sample(cand.tolist(), k))
+            if tg.get("shuffle"):
+                r.shuffle(ix)     # a user-chosen, not ascending, order
+            idx = np.array(ix, dtype=np.int32)
             if tg["kind"] == "bo":
                 ori = np.array([r.randrange(2) if f2t[1, f] != -1 else 0
                                 for f in idx], dtype=np.int64)
@@ -264,6 +277,22 @@ class DiskFull:
     def __exit__(self, *a):
         resource.setrlimit(resource.RLIMIT_FSIZE, self.old)
         signal.signal(signal.SIGXFSZ, self.oldsig)
+        return False
+
+
+class NoFd:
+    """Every attempt to open a file inside the block fails with EMFILE
+    (RLIMIT_NOFILE lowered to the lowest free descriptor number)."""
+
+    def __enter__(self):
+        self.old = resource.getrlimit(resource.RLIMIT_NOFILE)
+        fd = os.open(os.devnull, os.O_RDONLY)
+        os.close(fd)
+        resource.setrlimit(resource.RLIMIT_NOFILE, (fd, self.old[1]))
+        return self
+
+    def __exit__(self, *a):
+        resource.setrlimit(resource.RLIMIT_NOFILE, self.old)
         return False
 
 
@@ -436,16 +465,19 @@ def _save(o, W, model, scratch, probes, faults, keys_nt, bump):
                 os.remove(dry)
         limit = int(fault["frac"] * size)
         try:
-            with DiskFull(limit):
+            with (DiskFull(limit) if fault["kind"] == "disk-full" else NoFd()):
                 do_save(m, path, variant, pd, cd)
         except Exception as e:
             raised = e
-        if raised is not None:
+        if raised is not None and fault["kind"] == "disk-full":
             bump(faults, "disk-full-fired")
             bump(faults, "disk-full-fired-%s" % variant)
             bump(faults, "disk-full-decile-%d" % min(9, int(fault["frac"] * 10)))
+        elif raised is not None:
+            bump(faults, "open-fails-fired")
+            bump(faults, "open-fails-fired-%s" % variant)
         else:
-            bump(probes, "disk-full-armed-but-save-returned-normally")
+            bump(probes, "fault-armed-but-save-returned-normally")
     else:
         try:
             do_save(m, path, variant, pd, cd)
@@ -652,7 +684,9 @@ def describe(prop):
                      "to_dict/from_dict", "meshio 5.3.5 writers/readers",
                      "the file system (per-run scratch directory)"],
             "stubbed": ["disk capacity: RLIMIT_FSIZE lowered around one save "
-                        "(SIGXFSZ ignored), restored right after"]},
+                        "(SIGXFSZ ignored), restored right after",
+                        "descriptor table: RLIMIT_NOFILE lowered around one "
+                        "save so that every open() fails with EMFILE"]},
         "assumptions": [
             "a save that raises makes its path indeterminate; indeterminate "
             "paths are not loaded for a verdict (the statement does not "
